@@ -6,7 +6,6 @@ package world
 import (
 	"crypto"
 	"crypto/ecdsa"
-	"crypto/rand"
 	"crypto/rsa"
 	"crypto/sha1"
 	"crypto/x509"
@@ -153,7 +152,7 @@ func Issue(parent *Ident, o CertOpt) *Ident {
 			tpl.AuthorityKeyId = parent.Cert.SubjectKeyId
 		}
 	}
-	der, err := x509.CreateCertificate(rand.Reader, tpl, parentCert, k.Public(), signer)
+	der, err := x509.CreateCertificate(DetRand, tpl, parentCert, k.Public(), signer)
 	if err != nil {
 		panic(fmt.Sprintf("world.Issue %+v: %v", o, err))
 	}
@@ -167,6 +166,20 @@ func Issue(parent *Ident, o CertOpt) *Ident {
 	certMu.Unlock()
 	return id
 }
+
+// zeroReader makes ECDSA signing deterministic (Go derives the nonce from the key, the digest and
+// this "entropy"): the same case produces byte-identical documents in every process and run.
+type zeroReader struct{}
+
+func (zeroReader) Read(p []byte) (int, error) {
+	for i := range p {
+		p[i] = 0
+	}
+	return len(p), nil
+}
+
+// DetRand is the deterministic entropy source used for every signature of the harness PKI.
+var DetRand zeroReader
 
 func SKIOf(pub crypto.PublicKey) []byte {
 	b, _ := x509.MarshalPKIXPublicKey(pub)
